@@ -15,8 +15,8 @@ OPS = {"hom2", "hom2_vis"}
 TOL = {"hom2": ("rel", 1e-10, 1e-13), "hom2_vis": ("rel", 1e-10, 2e-13)}
 DEFAULT_TOL = ("exact",)
 RULE = ("family hom/two: random phase-matched setups (degenerate and non-degenerate) x sides 4-8 (quick) / 4-24 (thorough) x six kinds of range "
-        "(optimum, identical axes, unequal widths, offset along/against the energy-conserving line, narrow far apart) x delays {0, +-t, random}; "
-        "identical sources through the SPDC-level wrappers, two different sources / two ranges through the array-level function; mismatched "
+        "(optimum, identical axes, unequal widths, offset along/against the energy-conserving line, narrow far apart) x unsorted non-uniform delay lists {0, +-t, random[, random]} with the zero entry in any position (zero entry vs purity, every entry vs a single-delay call); "
+        "identical sources through the SPDC-level wrappers and through the free function with the same reference, a clone and a second build of the same config, two different sources / two ranges through the array-level function; mismatched "
         "step counts for the three assert_eq!; the caller's integrator is the default in one case of three, otherwise Simpson 10/100/200 or "
         "Gauss-Legendre 6/16/40 (purity oracle and the eight grids sampled with the same integrator); family hom/twoloop: up to four different "
         "setups (a setup and length/bandwidth variants) on ONE common grid called in a loop from one call site - visibilities for all, delay scans "
